@@ -296,7 +296,7 @@ def test_literals(prog):
 def new_solver(ctx, extra_axioms=()):
     s = z3.Solver()
     s.set('arith.solver', 2)
-    s.set('timeout', int(os.environ.get('VERIF_M_QUERY_TIMEOUT_MS', '300000')))
+    s.set('timeout', int(os.environ.get('VERIF_M_QUERY_TIMEOUT_MS', '600000')))
     for a in ctx.axioms:
         s.add(a)
     for a in extra_axioms:
@@ -1251,7 +1251,19 @@ def c06_glue(prog, lmax):
                 r = models.Ok(Opaque('H2'))
             else:
                 name = v2_variants[k - 1][0]
-                r = models.Err(Enum('v2::error::ParseError', name, [Opaque('payload'), Opaque('payload')]))
+                # payloads are symbolic integers constrained to what the v2 parser can report (facts decided by C02 /
+                # C12 / C17): glue code that *computes* with a payload (e.g. a missing-bytes count) is then executable
+                pa, pb = z3.Int('v2pay_a'), z3.Int('v2pay_b')
+                facts = {'Incomplete': (1, z3.And(pa >= 0, pa < 16)), 'Prefix': (0, True), 'Version': (1, z3.And(pa >= 0, pa <= 240, pa % 16 == 0, pa != 32)),
+                         'Command': (1, z3.And(pa >= 2, pa <= 15)), 'AddressFamily': (1, z3.And(pa >= 64, pa <= 240, pa % 16 == 0)), 'Protocol': (1, z3.And(pa >= 3, pa <= 15)),
+                         'Partial': (2, z3.And(pa >= 0, pa < pb, pb <= 65535)), 'InvalidAddresses': (2, z3.And(pa >= 0, pa < pb, z3.Or(pb == 12, pb == 36, pb == 216)))}
+                if name in facts:
+                    n_, fact = facts[name]
+                    if fact is not True:
+                        ex.assume(fact, 'd')
+                    r = models.Err(Enum('v2::error::ParseError', name, [pa, pb][:n_]))
+                else:
+                    r = models.Err(Enum('v2::error::ParseError', name, [Opaque('payload'), Opaque('payload')]))
             ex.r2 = r
             return True, r
         if re.match(r"^<v1::model::Header<'_> as std::convert::TryFrom<&\[u8\]>>::try_from", func):
@@ -1320,8 +1332,17 @@ def c06_glue(prog, lmax):
             if why is None:
                 if not (isinstance(r, Enum) and r.variant == want_tag and r.fields[0] is want_val):
                     why = 'result is not %s(<that parser\'s result, unchanged>)' % want_tag
-                elif inc is not want_inc or comp is not (not want_inc):
-                    why = 'is_incomplete=%s is_complete=%s, expected incomplete=%s' % (inc, comp, want_inc)
+                elif isinstance(inc, bool) and isinstance(comp, bool):
+                    if inc is not want_inc or comp is not (not want_inc):
+                        why = 'is_incomplete=%s is_complete=%s, expected incomplete=%s' % (inc, comp, want_inc)
+                else:
+                    # the flags depend on an error payload: decided by the solver over the payload values the parser can report
+                    sv = z3.Solver()
+                    for _, c_ in items:
+                        sv.add(c_)
+                    sv.add(z3.Or(Z(inc) != z3.BoolVal(want_inc), Z(comp) != z3.BoolVal(not want_inc)))
+                    if sv.check() != z3.unsat:
+                        why = 'is_incomplete / is_complete depend on the error payload and are wrong for e.g. %s (expected incomplete=%s)' % (sv.model() if sv.check() == z3.sat else '?', want_inc)
         if why:
             rec['status'] = 'sat'
             desc = 'v2 result %r, v1 result %r: %s' % (r2 if outc[0] == 'ret' else None, r1 if outc[0] == 'ret' else None, why)
